@@ -481,6 +481,55 @@ def run_zip(ctx, n_cases):
     return ok
 
 
+# ---- MPO.expect (new_left_bath swept over the chain) against Model/Bath.lbath -------------------------------------
+EXPECT_HEADER = """From Coq Require Import ZArith List Bool.
+Import ListNotations.
+From EV Require Import Model.TransferMat Model.MPSAlg Model.Bath Proofs.ExpectProofs.
+Open Scope Z_scope."""
+
+
+def run_expect(ctx, n_cases):
+    import torch
+    from emu_mps.mps import MPS
+    from emu_mps.mpo import MPO
+    from vlib.coqparse import parse
+
+    rng = ctx.rng
+    items = []
+    for k in range(n_cases):
+        d = rng.choice([2, 2, 3])
+        n = rng.randint(2, 4 if d == 2 else 3)
+        psi = rand_gi_chain(rng, n, d, 2, density=rng.choice([1.0, 0.8]))
+        op = rand_gi_chain(rng, n, d, 2, mpo=True, density=rng.choice([1.0, 0.7]))
+        got = MPO([t.clone() for t in op]).expect(MPS([t.clone() for t in psi], orthogonality_center=0, eigenstates=_eig(d)))
+        z = complex(got)
+        if abs(z) >= EXACT_LIMIT or abs_bound(psi) ** 2 * abs_bound(op) >= EXACT_LIMIT:
+            continue
+        case = {"kind": "expect_exact", "n": n, "d": d, "idx": k,
+                "bonds": [[t.shape[0] for t in psi] + [1], [t.shape[0] for t in op] + [1]]}
+        items.append((case, f"expect_gi {d}%nat {raws(psi)} {raws(op)}", [int(round(z.real)), int(round(z.imag))], z))
+    ok, detail = True, ""
+    try:
+        ev = common.CoqEval("C11exp", EXPECT_HEADER)
+        for case, expr, want, z in items:
+            ev.add(expr)
+        outs = ev.run(shard=20, jobs=8)
+        for (case, expr, want, z), o in zip(items, outs):
+            got = parse(o)
+            ctx.count_case(case, True)
+            if _norm(got) != _norm(want) or z.real != want[0] or z.imag != want[1]:
+                if ok:
+                    ok = False
+                    detail = f"case={case} model={str(got)[:200]} real={z!r}"
+                    ctx.extra["first_expect_disagreement"] = {"case": case, "model": str(got)[:500], "real": repr(z),
+                                                              "expr": expr[:4000]}
+    except (common.CoqEvalError, ValueError) as ex:
+        ok, detail = False, str(ex)
+    ctx.extra["expect_exact_cases"] = len(items)
+    ctx.obligation("correspondence:Model.Bath.lbath(Z[i]) at (0,0,0)==MPO.expect (exact)", ok, detail, kind="correspondence")
+    return ok
+
+
 # ---- falsifier: every public operation against dense linear algebra (floating point, tolerances stated) ----
 def rand_c_mps(rng, n, d, chimax, tgen, normalise=True):
     import torch
@@ -991,12 +1040,13 @@ def run(ctx):
     import torch
 
     torch.set_num_threads(1)
-    model_rc, model_out = common.coq_make(["Model/MPSAlg.vo", "Model/Zip.vo"])
+    model_rc, model_out = common.coq_make(["Model/MPSAlg.vo", "Model/Zip.vo", "Proofs/ExpectProofs.vo"])
     ctx.obligation("build:Model/MPSAlg.vo Model/Zip.vo", model_rc == 0, model_out, kind="build")
     common.standard_proof_stage(ctx, "C11", ["Properties/C11.vo"])
     if model_rc == 0:
         run_exact(ctx, ctx.n(120, 1500))
         run_zip(ctx, ctx.n(60, 600))
+        run_expect(ctx, ctx.n(30, 300))
     run_public(ctx, ctx.n(150, 3000))
     run_precision(ctx, ctx.n(200, 3000))
     ctx.rule = ("exact stream: random Gaussian-integer tensor trains (2-8 sites, bonds 1-6, d in {2,3}, MPO factors "
@@ -1052,10 +1102,12 @@ META = {
              "Model/Zip.v is compared factor by factor with the real zip_right driven through MPO.apply_to / MPO.__matmul__ / directly, "
              "with torch.linalg.qr rebound to the same scripted exact factorisation (L=M,R=I / L=I,R=M / L=M G,R=G^-1 for random "
              "unimodular Gaussian-integer G per site) and truncate_impl rebound to a no-op, including which length / bond mismatches raise. "
+             "MPO.expect is proved to be the dense expectation value sum_ij conj(amp i) O(i,j) amp j for every chain, no canonical form "
+             "assumed (C11_expect_spec: bath adjointness of C02 + the right environment as a double sum over index strings); the left-bath "
+             "model is compared exactly with the real MPO.expect on Gaussian-integer chains. "
              "Validated only (dense linear algebra, stated tolerances): truncation after + / apply_to / @, norm, overlap, "
              "expect, expect_batch, get_correlation_matrix, apply, entanglement_entropy, from_state_amplitudes, "
-             "from_operator_repr, and operand invariance of every non-in-place operation. Not proved: expect_spec (MPO.expect through "
-             "the baths of C02), from_amplitudes_spec, from_operator_repr_spec; that torch's QR factorises (oracle premise)."),
+             "from_operator_repr, and operand invariance of every non-in-place operation. Not proved: from_amplitudes_spec, from_operator_repr_spec; that torch's QR factorises (oracle premise)."),
     "note": ("Trusted: Coq kernel+VM, the hand model (tied by the exact correspondence on every run), torch dense references. "
              "Theorems are exact-arithmetic statements; floating-point effects are covered only by the tolerance-based falsifier."),
 }
